@@ -296,9 +296,14 @@ def _coefficient_signatures(prog):
             if k.name != 'Thermo' or '__init__' not in k.methods:
                 continue
             for n in ast.walk(k.methods['__init__'].node):
-                if isinstance(n, ast.Call) and isinstance(n.func, ast.Name) and n.func.id in ('issubtype', 'issubclass') and len(n.args) == 2 \
-                        and isinstance(n.args[0], ast.Name) and isinstance(n.args[1], (ast.Attribute, ast.Name)):
-                    roots[n.args[0].id] = n.args[1].attr if isinstance(n.args[1], ast.Attribute) else n.args[1].id
+                # issubclass(Slot, eq.Root) -- the test may be called through a local alias (issubtype = issubclass): any two-argument
+                # call whose first argument is a constructor parameter and whose second names a class of the package
+                if isinstance(n, ast.Call) and isinstance(n.func, ast.Name) and len(n.args) == 2 and not n.keywords \
+                        and isinstance(n.args[0], ast.Name) and n.args[0].id in k.methods['__init__'].params \
+                        and isinstance(n.args[1], (ast.Attribute, ast.Name)):
+                    cname_ = n.args[1].attr if isinstance(n.args[1], ast.Attribute) else n.args[1].id
+                    if cname_ in prog.classes:
+                        roots[n.args[0].id] = cname_
     out = {}
     for attr, ss in slots.items():
         if len(ss) != 1 or next(iter(ss)) not in roots:
